@@ -553,10 +553,11 @@ class Unit:
                 loops[num] = {"iter": lo.get("iter"), "lines": []}
                 cur = ("loop", num)
             elif s.startswith("//@proof"):
-                pm = re.match(r"//@proof\s+(before|after|start)\s*(?:/(.*)/)?\s*$", s)
+                pm = re.match(r"//@proof\s+(before|after|start)\s*(?:/(.*)/)?\s*(?:#(\d+))?\s*$", s)
                 if not pm:
                     raise ExtractError("bad //@proof directive: " + s)
-                proofs.append({"where": pm.group(1), "re": pm.group(2), "lines": [], "org": lorg})
+                proofs.append({"where": pm.group(1), "re": pm.group(2), "lines": [], "org": lorg,
+                               "nth": int(pm.group(3)) if pm.group(3) else None})
                 cur = ("proof", len(proofs) - 1)
             elif s.startswith("//@sigsub"):
                 sigsubs.append(parse_map(s[len("//@sigsub"):]))
@@ -707,9 +708,14 @@ class Unit:
                 inserts.append((1, plines))
                 continue
             ms = list(re.finditer(pr["re"], body, re.M))
-            if len(ms) != 1:
+            if pr.get("nth"):
+                if len(ms) < pr["nth"]:
+                    raise ExtractError("anchor lost: //@proof /%s/ #%d in %s matched %d times" % (pr["re"], pr["nth"], name, len(ms)))
+                mm = ms[pr["nth"] - 1]
+            elif len(ms) != 1:
                 raise ExtractError("anchor lost: //@proof /%s/ in %s matched %d times" % (pr["re"], name, len(ms)))
-            mm = ms[0]
+            else:
+                mm = ms[0]
             if pr["where"] == "before":
                 p = body.rfind("\n", 0, mm.start()) + 1
                 inserts.append((p, plines))
